@@ -177,6 +177,8 @@ def model_lines(case):
 	if case[0] == 'perturb':
 		for q in perturbations(p):
 			lines.append('dg.check %s %s' % (args(q), args(dict(p, response=reference(p) or b''))))
+		for alt in realm_alts(p):
+			lines.append('dg.check %s %s' % (args(p), args(dict(p, realm=alt, response=reference(p) or b''))))
 	return lines
 
 
@@ -244,7 +246,15 @@ def impl_lines(case):
 	if case[0] == 'perturb':
 		for q in perturbations(p):
 			lines.append(impl_check_line(q, dict(p, response=reference(p) or b'')))
+		for alt in realm_alts(p):
+			lines.append(impl_check_line(p, dict(p, realm=alt, response=reference(p) or b'')))
 	return lines
+
+
+def realm_alts(p):
+	"""realms of a RECEIVED field that differ from the protected one (also in letter case only); the response is left as computed"""
+	r = p.get('realm') or b''
+	return [v for v in dict.fromkeys((r.swapcase(), r.lower(), r.upper(), r + b'x', r[:-1])) if v != r]
 
 
 def perturbations(p):
@@ -397,6 +407,14 @@ def oracle(case):
 			if ok != same:
 				changed = [f for f in q if q[f] != p.get(f)]
 				return {'what': 'check() %s credentials that differ in %s' % ('accepts' if ok else 'rejects', changed or 'nothing'), 'params': describe(case)[1], 'finding': None}
+		# the received field names another realm than the protected one (the response is the one for the protected realm)
+		for alt in realm_alts(p):
+			try:
+				ok3 = D.check(bud(p), bud(dict(received, realm=alt)))
+			except Exception as e:
+				return {'what': 'check() raised %s' % exc_name(e), 'params': describe(case)[1], 'finding': None}
+			if ok3:
+				return {'what': 'check() accepts a received field whose realm %r is not the protected realm %r' % (alt, p['realm']), 'params': describe(case)[1], 'finding': None}
 		# a response that is a prefix / extension of the right one must not verify
 		for bad in (ref[:-1], ref + b'0', b'', ref.upper() if ref.upper() != ref else ref[::-1]):
 			if D.check(bud(p), bud({'realm': p['realm'], 'response': bad})):
